@@ -17,7 +17,7 @@ import (
 // ---- C17: verify-index accepts a file iff it matches the index ----
 
 func runC17(c *fw.Case) {
-	if desyncBin() != "" && c.Chance(1, procRate(12), "c17.proc") {
+	if desyncBin() != "" && c.ChanceAdded(1, procRate(12), "c17.proc") {
 		runC17Proc(c)
 		return
 	}
